@@ -409,13 +409,8 @@ func (ex *executor) inlinable(st *pstate, call *ssa.Call) *ssa.Function {
 			return nil
 		}
 	}
-	for _, b := range f.Blocks {
-		for _, in := range b.Instrs {
-			switch in.(type) {
-			case *ssa.Defer, *ssa.RunDefers, *ssa.Go, *ssa.Select:
-				return nil
-			}
-		}
+	if !onlySyncDefers(f) {
+		return nil
 	}
 	return f
 }
@@ -632,6 +627,9 @@ func (ex *executor) execFrom(st *pstate, b *ssa.BasicBlock, start int) {
 			st.effects = append(st.effects, Effect{Seq: st.seq, Kind: "mapupdate", Instr: in, Addr: tc.Of(in.Map), Key: tc.Of(in.Key), Val: tc.Of(in.Value), InLoop: ex.inLoop[b] || st.viaLoop(ex), Block: b, Via: st.via()})
 			st.epoch++
 		case *ssa.Call:
+			if isSyncCall(in.Common()) {
+				continue
+			}
 			if f := ex.inlinable(st, in); f != nil {
 				ex.enter(st, f, in, b, idx)
 				return
@@ -656,6 +654,9 @@ func (ex *executor) execFrom(st *pstate, b *ssa.BasicBlock, start int) {
 			st.effects = append(st.effects, Effect{Seq: st.seq, Kind: "go", Instr: in, Call: callTermOf(tc, in.Common()), InLoop: ex.inLoop[b] || st.viaLoop(ex), Block: b, Via: st.via()})
 			st.epoch++
 		case *ssa.Defer:
+			if isSyncCall(in.Common()) {
+				continue
+			}
 			st.seq++
 			st.effects = append(st.effects, Effect{Seq: st.seq, Kind: "defer", Instr: in, Call: callTermOf(tc, in.Common()), InLoop: ex.inLoop[b] || st.viaLoop(ex), Block: b, Via: st.via()})
 		case *ssa.Send:
